@@ -184,13 +184,29 @@ pub fn move_connection(
         return; // Same database selected again, still one session
     }
     if let Some(old_db) = previous_db.and_then(|old_name| dbs_map.get(&old_name)) {
-        old_db.dec_connections();
-        set_connection_counter(old_db, &dbs);
+        change_connection_counter(old_db, &dbs, false);
     }
     if let Some(db) = dbs_map.get(name) {
-        db.inc_connections(); //Increment the number of connections
-        set_connection_counter(db, &dbs);
+        change_connection_counter(db, &dbs, true); //Increment the number of connections
     }
+}
+
+/// Changes the session counter of the database and publishes it in the $connections key while
+/// still holding the counter's lock: two sessions coming or going at the same time cannot leave
+/// the key behind the counter, and the counter never goes below zero
+pub fn change_connection_counter(db: &Database, dbs: &Arc<Databases>, enter: bool) -> Response {
+    let mut connections = db
+        .connections
+        .write()
+        .expect("Error getting the db.connections.lock to change");
+    let current = *connections.get_mut();
+    let next = if enter {
+        current + 1
+    } else {
+        current.saturating_sub(1)
+    };
+    *connections.get_mut() = next;
+    set_key_value(CONNECTIONS_KEY.to_string(), next.to_string(), -1, db, &dbs)
 }
 
 pub fn set_key_value(
